@@ -1162,6 +1162,7 @@ class Component(BaseModel, Serializable):
                     np.concatenate((model_inputs[var], design_pts[var]), axis=0))
 
         # Evaluate model at designed training points
+        model_outputs, errors = {}, {}  # stay empty when every requested point already has stored data
         if len(alpha_list) > 0:
             self.logger.info(f"Running {len(alpha_list)} total model evaluations for component "
                              f"'{self.name}' new candidate indices: {indices}...")
